@@ -18,6 +18,9 @@ sed -i "s#\"/repo/#\"$REPO_ALT/#g" "$ALT"/props/"$PID"/harness/Cargo.toml
 rm -f "$ALT"/props/"$PID"/harness/Cargo.lock; cp "$REPO_ALT"/Cargo.lock "$ALT"/props/"$PID"/harness/Cargo.lock
 # share the compiled registry crates but not the gix crates: separate target dir
 export GIXV_REPO="$REPO_ALT"
+# persistent per-worktree target dir so that repeated runs on the same worktree are incremental;
+# remove it together with the worktree:  rm -rf /verif/.cache/target-alt/$(basename <worktree>)
+export GIXV_TARGET="$SRC/.cache/target-alt/$(basename "$REPO_ALT")"; mkdir -p "$GIXV_TARGET"
 ( cd "$ALT" && python3 tools/check.py "$PID" "$@" ); rc=$?
 if [ -d "$ALT/replays" ]; then mkdir -p "$SRC/replays/alt"; cp -r "$ALT"/replays/. "$SRC/replays/alt/" 2>/dev/null; fi
 [ "${KEEP:-0}" = 1 ] && echo "kept $ALT" || rm -rf "$ALT"
